@@ -224,7 +224,15 @@ var propC11 = &Prop[EquCase]{
 			} else {
 				p := c.Defs[rapid.IntRange(0, i-1).Draw(t, "prev")]
 				k := rapid.SampledFrom([]int64{1, 2, 3, 4, 7, 100, 127, 128, 256}).Draw(t, "k")
-				switch rapid.IntRange(0, 6).Draw(t, "form") {
+				switch rapid.IntRange(0, 10).Draw(t, "form") {
+				case 7:
+					d.Body, d.Val = fmt.Sprintf("%s*6/4", p.Name), p.Val*6/4
+				case 8:
+					d.Body, d.Val = fmt.Sprintf("%s/2*4", p.Name), p.Val/2*4
+				case 9:
+					d.Body, d.Val = fmt.Sprintf("100-%s*10/4", p.Name), 100-p.Val*10/4
+				case 10:
+					d.Body, d.Val = fmt.Sprintf("%d-(%s+1)", k, p.Name), k-(p.Val+1)
 				case 0:
 					d.Body, d.Val = fmt.Sprintf("%s+%d", p.Name, k), p.Val+k
 				case 1:
